@@ -55,8 +55,8 @@ theorem shape_prim_rt (env : Env) (ht : env.time = TimeCfg.repaired) (hfl : Floa
     rw [← htag] at hr hw
     simp only [Shape.write, primFieldWriter, hsft, hw] at he
     simp only [Shape.read, primFieldReader, hsft, hr]
-    exact prim_roundtrip' env ht hfl k flex (!tagged && o) (o && !tagged)
-      (Or.inl (Bool.and_comm _ _)) w r hw hr v (primValueOk_mono env k o v hvo) bs he rest
+    exact prim_roundtrip' env ht hfl k flex (!tagged && o) (o && (env.nullableTaggedReader || !tagged))
+      (Or.inl (by cases tagged <;> cases o <;> simp)) w r hw hr v (primValueOk_mono env k o v hvo) bs he rest
   · cases hwf
 
 theorem shape_primArr_rt (env : Env) (ht : env.time = TimeCfg.repaired) (hfl : FloatExact)
@@ -76,12 +76,8 @@ theorem shape_primArr_rt (env : Env) (ht : env.time = TimeCfg.repaired) (hfl : F
     rw [← htag] at hw hte
     simp only [Shape.write, primFieldWriter, hsft, hw] at he
     simp only [Shape.read, primFieldReader, hsft, hr]
-    have hopt : (!tagged && (e || a)) = (e || a) ∨ k = .uuid := by
-      cases tagged
-      · left; simp
-      · cases e
-        · left; simp_all
-        · right; simpa using hte
+    have hopt : ((!tagged && (e || a)) = true → (e || a) = true) ∨ k = .uuid := by
+      left; intro h; simp only [Bool.and_eq_true] at h; exact h.2
     cases v with
     | tuple vs =>
       simp only at hvo
